@@ -279,6 +279,22 @@ def run(ctx):
             # rejections
             rej = [("unknown keyword (ctor)", lambda: cls(**dict(realfuzz.BASE[cn], not_a_parameter=1))),
                    ("unknown keyword (update)", lambda: copy.deepcopy(obj).update(not_a_parameter=1))]
+            # names the constructors mention as string literals (legacy aliases, special-cased keys) but that are not parameters
+            import ast as _ast, inspect as _inspect, textwrap as _tw
+            cand = set()
+            for c_ in cls.__mro__:
+                init_ = c_.__dict__.get("__init__")
+                if init_ is None or not hasattr(init_, "__code__"):
+                    continue
+                try:
+                    tree_ = _ast.parse(_tw.dedent(_inspect.getsource(init_)))
+                except Exception:
+                    continue
+                for nd_ in _ast.walk(tree_):
+                    if isinstance(nd_, _ast.Constant) and isinstance(nd_.value, str) and nd_.value.isidentifier() and nd_.value not in kws:
+                        cand.add(nd_.value)
+            for nm_ in sorted(cand):
+                rej.append((f"non-parameter keyword {nm_!r} (ctor)", lambda nm_=nm_: (lambda o_: (_ for _ in ()).throw(ValueError("reported")) if nm_ in o_.parameter_values else o_)(cls(**dict(realfuzz.BASE[cn], **{nm_: 1})))))
             for k in kws:
                 if k.endswith("_params"):
                     rej.append((f"non-dict {k}", lambda k=k: copy.deepcopy(obj).update(**{k: 3})))
